@@ -110,6 +110,10 @@ type CallSpec struct {
 	Type  string   `json:"type"`
 	Terms []string `json:"terms"`
 	Types []string `json:"types"`
+	// Sets: the call also assigns state places (canonical lvalue text -> term over $i and ${place}, all read
+	// BEFORE the call); such a call may only be the whole right-hand side of an assignment or the operand of
+	// `return f(…)`.  Used for callees that are themselves targets threading the same state (rd.off).
+	Sets map[string]string `json:"sets"`
 }
 
 // Emit maps a call statement (by callee text) or a channel send (Go = "<chan text> <-") to an action.
